@@ -30,6 +30,13 @@ func main() {
 			replay = os.Args[i]
 		}
 	}
+	if replay != "" && replay != "/dev/null" {
+		// a replay re-executes the check at the tier recorded in the replay file and
+		// reports whether the recorded violation (clause + key) is reproduced
+		if t := core.ReplayTier(replay); t != "" {
+			tier = t
+		}
+	}
 	f, ok := checks.Registry[id]
 	if !ok {
 		fmt.Fprintln(os.Stderr, "unknown check", id)
